@@ -245,6 +245,16 @@ func Count(name string) {
 	S.mu.Unlock()
 }
 
+// Counter reads a probe / fault counter of the running simulation.
+func Counter(name string) int {
+	if S == nil {
+		return 0
+	}
+	S.mu.Lock()
+	defer S.mu.Unlock()
+	return S.counter[name]
+}
+
 func CountN(name string, n int) {
 	if S == nil {
 		return
